@@ -43,6 +43,12 @@ func (TX) Error() string { return "TX" }
 type TP struct{ N int }   // pointer receiver
 func (*TP) Error() string { return "TP" }
 
+// multiErr is a hand-written multi-error (Unwrap() []error) that may hold nil slots
+type multiErr struct{ es []error }
+
+func (m *multiErr) Error() string   { return "multiErr" }
+func (m *multiErr) Unwrap() []error { return m.es }
+
 type WT struct{ Err error } // custom wrapping type
 func (w WT) Error() string  { return "WT(" + w.Err.Error() + ")" }
 func (w WT) Unwrap() error  { return w.Err }
@@ -69,6 +75,8 @@ func buildErr(t term) error {
 		return WT{buildErr(t.Ch[0])}
 	case "J":
 		return errors.Join(buildErr(t.Ch[0]), buildErr(t.Ch[1]))
+	case "JN":
+		return &multiErr{[]error{nil, buildErr(t.Ch[0])}}
 	}
 	panic("unknown term op " + t.Op)
 }
@@ -178,9 +186,15 @@ func applyConds[R any](cs []cond, mk func(string) R, onErrs func(...error), onTy
 	}
 	if len(errs) > 0 {
 		onErrs(errs...)
+		for i := range errs {
+			errs[i] = errors.New("overwritten after the registration") // the caller reuses its slice: the registration keeps what it was given
+		}
 	}
 	if len(types) > 0 {
 		onTypes(types...)
+		for i := range types {
+			types[i] = struct{ X int }{}
+		}
 	}
 	// a registration call that registers nothing (an empty variadic, as in HandleErrors(cfg.Errors...) with nothing configured)
 	// changes nothing; made only when an error-inspecting condition is configured anyway, after the real registrations
@@ -191,6 +205,10 @@ func applyConds[R any](cs []cond, mk func(string) R, onErrs func(...error), onTy
 		case 1:
 			onTypes()
 		}
+	}
+	// ... and when NOTHING is configured, an empty registration call still configures nothing (the default rule applies)
+	if altTargets && len(cs) == 0 && emptyCalls.Add(1)%2 == 0 {
+		onErrs()
 	}
 	for _, c := range cs {
 		switch c.T {
